@@ -189,6 +189,7 @@ def book_run(text, fmt, cache=False, rounds=1, maxprocs=0, race=False, schedule=
 
 def book_summary(dump):
     """positions -> counter (schedule independent part) and links."""
-    pos = {e["key"]: e["counter"] for e in dump["entries"]}
-    links = {(e["key"], m["m"]): m["next"] for e in dump["entries"] for m in e["moves"]}
+    entries = dump.get("entries") or []          # an empty book is dumped as null
+    pos = {e["key"]: e["counter"] for e in entries}
+    links = {(e["key"], m["m"]): m["next"] for e in entries for m in e["moves"]}
     return pos, links
